@@ -60,7 +60,8 @@ ASSUMPTIONS = [
     "any exception raised by SPSDK counts as 'refused' (the CLI turns SPSDKError and KeyError into an error message); a "
     "shard is inconclusive when fewer than 60 % of its generated programs are accepted by the parser",
     "OTFAD encryption itself is C13's subject: C19 only requires that the data is the plain data encrypted under the "
-    "key blob the program selects; character literals occur in ~12 % of the programs only (two on one line are "
+    "key blob the program selects, and left as given when that key blob's end address has ADE/VLD not both set (the engine "
+    "passes such a context through); character literals occur in ~12 % of the programs only (two on one line are "
     "mis-tokenised, which would otherwise turn most programs into refusals)",
 ]
 REQUIRED_COUNTERS = ["programs", "config_compared", "commands_compared", "unsupported_tried", "cli_runs",
